@@ -250,13 +250,13 @@ def run(ctx):
                 if not any(flds == ('parent',) for (flds, vd, site, vv) in w):
                     missing.append('parent')
                 if not missing:
-                    ctx.add('FRESH', f, 'fresh-leaf', 'ok', 'both child links of the slot taken from the pool are set to EMPTY_REF and its parent link is written before the function returns', ['C02'] + family_props(f), line)
+                    ctx.add('FRESH', f, 'fresh-leaf', 'ok', 'both child links of the slot taken from the pool are set to EMPTY_REF and its parent link is written before the function returns', ['C02', 'C12'] + family_props(f), line)
                     continue
                 why = release_side_resets(prog, tree, r, fns, [m for m in missing if m != 'parent']) if 'parent' not in missing else 'the parent link of the fresh node is never written'
                 if why is None:
-                    ctx.add('FRESH', f, 'fresh-leaf', 'ok', 'the %s link(s) are not written here; they are reset before every release of a slot and the pool is filled with nodes whose links are EMPTY_REF' % '/'.join(missing), ['C02'] + family_props(f), line)
+                    ctx.add('FRESH', f, 'fresh-leaf', 'ok', 'the %s link(s) are not written here; they are reset before every release of a slot and the pool is filled with nodes whose links are EMPTY_REF' % '/'.join(missing), ['C02', 'C12'] + family_props(f), line)
                 else:
-                    ctx.add('FRESH', f, 'fresh-leaf', 'violation', 'the slot taken from the pool keeps the %s link(s) of its previous life: not written on every path before the function returns, and %s (a recycled inner node brings its old subtree back: lookups find removed entries, the tree can become cyclic)' % ('/'.join(missing), why), ['C02'] + family_props(f), line)
+                    ctx.add('FRESH', f, 'fresh-leaf', 'violation', 'the slot taken from the pool keeps the %s link(s) of its previous life: not written on every path before the function returns, and %s (a recycled inner node brings its old subtree back: lookups find removed entries, the tree can become cyclic)' % ('/'.join(missing), why), ['C02', 'C12'] + family_props(f), line)
     ctx.stat('FRESH', allocations=n_fresh)
     if n_fresh < 6:
         ctx.anchor_missing('FRESH', 'allocation sites in the three trees', ['C02'], n_fresh, 6)
